@@ -159,3 +159,40 @@ Example nlmh_points :
   eval_vchain value_to_none_low_medium_high_chain 101 = Refused /\
   eval_lfun none_low_med_high_to_value_fun "Med" = Value 50.
 Proof. vm_compute. repeat split. Qed.
+
+(* one boundary example per scale (the *_agrees_spec theorems imply them; they show the
+   hypotheses 0 <= v <= 100 are met by the interesting points) *)
+Example zero_ten_points :
+  eval_vchain value_to_zero_ten_chain 4 = Value "0"%string /\
+  eval_vchain value_to_zero_ten_chain 5 = Value "1"%string /\
+  eval_vchain value_to_zero_ten_chain 95 = Value "10"%string /\
+  eval_vchain value_to_zero_ten_chain 100 = Value "10"%string /\
+  eval_vchain value_to_zero_ten_chain 101 = Refused /\
+  eval_lfun zero_ten_to_value_fun "7" = Value 70 /\
+  eval_lfun zero_ten_to_value_fun "07" = Refused.
+Proof. vm_compute. repeat split. Qed.
+
+Example admiralty_points :
+  eval_vchain value_to_admiralty_credibility_chain 19 = Value "5 - Improbable"%string /\
+  eval_vchain value_to_admiralty_credibility_chain 20 = Value "4 - Doubtful"%string /\
+  eval_vchain value_to_admiralty_credibility_chain 100 = Value "1 - Confirmed by other sources"%string /\
+  eval_vchain value_to_admiralty_credibility_chain (-1) = Refused /\
+  eval_lfun admiralty_credibility_to_value_fun "6 - Truth cannot be judged" = Refused.
+Proof. vm_compute. repeat split. Qed.
+
+Example wep_points :
+  eval_vchain value_to_wep_chain 0 = Value "Impossible"%string /\
+  eval_vchain value_to_wep_chain 1 = Value "Highly Unlikely/Almost Certainly Not"%string /\
+  eval_vchain value_to_wep_chain 99 = Value "Highly likely/Almost Certain"%string /\
+  eval_vchain value_to_wep_chain 100 = Value "Certain"%string /\
+  eval_lfun wep_to_value_fun "Unlikely/Probably Not" = Value 30.
+Proof. vm_compute. repeat split. Qed.
+
+Example dni_points :
+  eval_vchain value_to_dni_chain 9 = Value "Almost No Chance / Remote"%string /\
+  eval_vchain value_to_dni_chain 10 = Value "Very Unlikely / Highly Improbable"%string /\
+  eval_vchain value_to_dni_chain 90 = Value "Almost Certain / Nearly Certain"%string /\
+  eval_vchain value_to_dni_chain 100 = Value "Almost Certain / Nearly Certain"%string /\
+  eval_vchain value_to_dni_chain 101 = Refused.
+Proof. vm_compute. repeat split. Qed.
+
